@@ -93,3 +93,23 @@ fn kx_panic_bytes_mut_quick() {
     core::mem::forget(b);
     assert!(false, "returned for an out-of-contract argument");
 }
+
+// ---- reserve with an unrepresentable size: nothing written before the panic (non-unique shared form) ----
+#[kani::requires(n > isize::MAX as usize && n <= usize::MAX - b.len)]
+#[kani::modifies()]
+#[kani::ensures(|_r| false)]
+fn m_reserve_unrepresentable(b: &mut BytesMut, n: usize) { b.reserve(n) }
+
+// @ob props=C13,C03,C02 tier=thorough kind=Kinf expect="panic:(capacity_overflow$|handle_error)" timeout=3000 fns=BytesMut::reserve,BytesMut::reserve_inner
+#[kani::proof_for_contract(m_reserve_unrepresentable)]
+fn kx_panic_m_reserve_shared_nothing_written() {
+    // another handle exists (count 2): reserve must allocate, and the allocation request panics with
+    // "capacity overflow".  Until then NOTHING may have been written - in particular this handle's
+    // reference must not have been given up yet, or the caught panic leaves a handle that no longer
+    // owns a share of the storage it points to (seed C13-3)
+    let (base, vcap) = alloc_sym();
+    let (mut b, g) = marc_on(base, vcap, 2);
+    let n: usize = kani::any();
+    m_reserve_unrepresentable(&mut b, n);
+    core::mem::forget(b);
+}
